@@ -6,10 +6,11 @@ from .. import lbgen, lbshadow
 from . import c02
 
 ID = "C13"
-MODULES = ["Helios.Props.C13", "Helios.Props.C13G"]
+MODULES = ["Helios.Props.C13", "Helios.Props.C13G", "Helios.Props.Facts"]
 THEOREMS = ["Helios.LB.begin_conserved", "Helios.LB.end_conserved", "Helios.LB.conserved_run",
             "Helios.LB.quiescent_totals", "Helios.LB.gauges_zero_when_idle",
-            "Helios.LB.ginv_step", "Helios.LB.gauge_ok_run", "Helios.LB.gauges_zero_run"]
+            "Helios.LB.ginv_step", "Helios.LB.gauge_ok_run", "Helios.LB.gauges_zero_run",
+            "Helios.Facts.execute_panic_is_failure_and_propagates"]
 
 
 def gen_episode(rng, long=False):
